@@ -835,3 +835,196 @@ def replay_pure(ck, F, rule="WMC-history"):
               "%s can write %s (through %s): replaying a change records it again -- the redo stack is cleared in the middle of a redo and "
               "replicas receive the change twice" % (fn, ["%s.%s" % (e[0].rsplit("::", 1)[-1], e[1]) for e in hit], via[1] if via else "?"), f, l,
               sample={"fn": fn})
+
+
+# ------------------------------------------------------------------------------------------------ CANON-RECORD / REPLAY-ARGS
+def _parsed_text_params(F, P):
+    """callee path -> indices of its *text* parameters whose value flows into the formula parser (argument 1 of
+    expressions::parser::Parser::parse), directly or through callees.  Memoised least fixed point."""
+    from rules_attr import sources
+    PARSE = set(F.find("expressions::parser::Parser::parse"))
+    memo = {}
+
+    def rec(c, depth=0):
+        if c in memo:
+            return memo[c]
+        memo[c] = set()
+        if c not in F.heads or not F.has(c) or depth > 8:
+            return memo[c]
+        cb = F.body(c)
+        names = {cb.local_name(i): i - 1 for i in range(1, cb.nargs + 1)}
+        out = set()
+        for bi, t in cb.calls():
+            c2 = cb.callee(t)
+            if c2 in PARSE:
+                idxs = {1}
+            elif c2 in F.heads and P.reaches(c2, PARSE):
+                idxs = rec(c2, depth + 1)
+            else:
+                continue
+            for i in idxs:
+                if i < len(t["args"]):
+                    for x in sources(cb, t["args"][i], text_calls=True):
+                        if x[0] == "param" and x[1] in names:
+                            ty = cb.locals[names[x[1]] + 1]
+                            if "str" in ty or "String" in ty:
+                                out.add(names[x[1]])
+        memo[c] = out
+        return out
+    return PARSE, rec
+
+
+def _diff_arms(F, fn):
+    from mir import enum_switches, arm_region
+    b = F.one("UserModel::" + fn)
+    sw = [x for x in enum_switches(b, DIFF)]
+    if not sw:
+        return b, None, {}
+    top = max(sw, key=lambda x: len(x[1]))
+    return b, top, {var: arm_region(b, top[0], entry) for var, entry in top[1].items()}
+
+
+def canon_record(ck, F, rule="CANON-RECORD"):
+    """What the record stores must mean the same wherever and whenever it is replayed.  The display language is per-user
+    view state (UserModel::set_language records nothing and from_bytes takes it as an argument), so a text field of a
+    Diff that a replay arm hands to a formula-parsing entry point must be language-independent: at every place the
+    variant is recorded, the field has to come from a getter of stored text (one that cannot reach the localized
+    printer), not from the caller's typed text and not from a display getter."""
+    from rules_attr import sources
+    P = Program(F)
+    PARSE, parsed = _parsed_text_params(F, P)
+    LOC = set(F.find("stringify::to_localized_string")) | set(F.find("Model::internal_formula_to_display"))
+    ck.ob(rule, "anchors", bool(PARSE) and bool(LOC), "formula parser / localized printer not found (anchor lost)")
+    replayed = {}
+    for fn in ("apply_diff_list", "apply_undo_diff_list"):
+        b, top, arms = _diff_arms(F, fn)
+        for var, region in sorted(arms.items()):
+            for bi in sorted(region):
+                t = b.term(bi)
+                if t["k"] != "call":
+                    continue
+                c = b.callee(t)
+                if c not in F.heads:
+                    continue
+                for i in parsed(c):
+                    if i < len(t["args"]):
+                        for x in sources(b, t["args"][i]):
+                            if x[0] == "field" and x[1] == DIFF:
+                                replayed.setdefault((var, x[2]), (fn, F.qname_of(c).rsplit("::", 1)[-1]))
+    ck.ob(rule, "replayed-text-fields", len(replayed) >= 6,
+          "only %d Diff text fields found that a replay arm passes to a parsing entry point (expected the cell value, array value and "
+          "defined-name formula fields): anchor lost" % len(replayed))
+    n = 0
+    for path in sorted(F.body_paths()):
+        h = F.heads[path]
+        if "user_model" not in path or h.get("impl_trait") or h.get("bkind") != "fn":
+            continue
+        b = F.body(path)
+        me = b.qname.split("::")[-1]
+        if me in ("clone", "decode_in_place", "decode", "encode"):
+            continue
+        params = {b.local_name(i) for i in range(1, b.nargs + 1)}
+        seen = {}
+        for bi, si, s in b.stmts():
+            rv = s["rv"]
+            if rv["k"] != "agg" or rv.get("adt") != DIFF:
+                continue
+            flds = dict(zip(rv.get("fields") or [], rv["ops"]))
+            for k, o in flds.items():
+                if (rv["variant"], k) not in replayed:
+                    continue
+                sr = sources(b, o, text_calls=True)
+                direct = sources(b, o)
+                typed = sorted(x[1] for x in direct if x[0] == "param" and x[1] in params and x[1] != "self")
+                crate_calls = sorted({x[1] for x in direct if x[0] == "call" and x[1].startswith(("ironcalc_base::", "ironcalc::"))})
+                localized = []
+                for q in crate_calls:
+                    ps = [p for p in F.find(q.split("ironcalc_base::", 1)[-1]) if F.qname_of(p) == q] or F.find(q.split("ironcalc_base::", 1)[-1])
+                    if any(p in LOC or P.reaches(p, LOC) for p in ps):
+                        localized.append(q.rsplit("::", 1)[-1])
+                if typed:
+                    origin, ok = "typed:" + ",".join(typed), False
+                elif localized:
+                    origin, ok = "display:" + ",".join(sorted(localized)), False
+                elif crate_calls:
+                    origin, ok = "stored:" + ",".join(q.rsplit("::", 1)[-1] for q in crate_calls), True
+                else:
+                    origin, ok = "untracked", False
+                via = replayed[(rv["variant"], k)]
+                # under SetCellValue / SetArrayValue even stored (English) text is re-read under the replaying language
+                if ok and via[1] in ("set_user_input", "set_user_array_formula"):
+                    ok = False
+                key = "%s|%s.%s|%s" % (me, rv["variant"], k, origin)
+                idx = seen[key] = seen.get(key, 0) + 1
+                if idx > 1:
+                    key += "#%d" % idx
+                n += 1
+                f, l = b.loc(bi, si)
+                ck.ob(rule, key, ok,
+                      "%s records Diff::%s.%s from %s; %s hands that field to Model::%s, which parses it under the display language of the model that "
+                      "replays it -- a replica showing another language, or a redo after set_language, reads a different formula/value"
+                      % (me, rv["variant"], k, origin, via[0], via[1]), f, l,
+                      sample={"recorder": me, "field": "%s.%s" % (rv["variant"], k), "origin": origin, "replayed_by": via[1]})
+    ck.note("recorded_text_fields", n)
+
+
+def replay_args(ck, F, rule="REPLAY-ARGS"):
+    """Replay uses what was recorded: in each arm of apply_diff_list / apply_undo_diff_list, an argument passed to a
+    Model/Worksheet method for a parameter that has the same name as a field of the arm's Diff variant comes from that
+    field (and from nothing read off the live model).  An arm that recomputes a recorded coordinate from the current
+    state, or substitutes another field, replays a different operation whenever the two disagree."""
+    from rules_attr import sources
+    n = 0
+    adt = F.adt(DIFF) if hasattr(F, "adt") else None
+    for fn in ("apply_diff_list", "apply_undo_diff_list"):
+        b, top, arms = _diff_arms(F, fn)
+        ck.ob(rule, "%s|arms" % fn, len(arms) >= 40, "%s: Diff match not found (anchor lost)" % fn, b.file, b.line)
+        for var, region in sorted(arms.items()):
+            k = 0
+            for bi in sorted(region):
+                t = b.term(bi)
+                if t["k"] != "call":
+                    continue
+                c = b.callee(t)
+                if c not in F.heads or not F.has(c):
+                    continue
+                q = F.qname_of(c) or ""
+                if "::Model::" not in q and "::Worksheet::" not in q:
+                    continue
+                cb = F.body(c)
+                pn = {cb.local_name(i): i - 1 for i in range(1, cb.nargs + 1) if cb.local_name(i)}
+                fields = _variant_fields(F, var)
+                for name, i in sorted(pn.items()):
+                    if name not in fields or i >= len(t["args"]) or name == "self":
+                        continue
+                    sr = sources(b, t["args"][i])
+                    mine = {x[2] for x in sr if x[0] == "field" and x[1] == DIFF}
+                    other = sorted(x for x in sr if (x[0] == "field" and x[1] != DIFF) or x[0] == "call" and
+                                   x[1].startswith(("ironcalc_base::", "ironcalc::")) or (x[0] == "call" and x[1].rsplit("::", 1)[-1] in ("count", "len", "position")))
+                    if fn == "apply_diff_list":
+                        # forward: exactly the recorded field (a loop over a recorded extent may add arithmetic, never another field)
+                        ok = mine == {name}
+                    else:
+                        # backward: the like-named field, or an inverse built from recorded fields alone (move back: new_index
+                        # <-> sheet_index, column + delta) -- but nothing recomputed from the live workbook
+                        ok = name in mine or (bool(mine) and not other)
+                    k += 1
+                    n += 1
+                    f, l = b.loc(bi)
+                    ck.ob(rule, "%s|%s|%s(%s)" % (fn, var, q.rsplit("::", 1)[-1], name), ok,
+                          "%s, arm %s: passes %s to %s as `%s` instead of the recorded Diff::%s.%s: the replay acts on a position/argument "
+                          "recomputed from the current state, not on the one the operation used"
+                          % (fn, var, sorted(map(str, sr))[:4], q.rsplit("::", 1)[-1], name, var, name), f, l,
+                          sample={"list": fn, "variant": var, "callee": q.rsplit("::", 1)[-1], "param": name})
+    ck.note("replay_named_arguments", n)
+
+
+_VF = {}
+
+
+def _variant_fields(F, var):
+    if not _VF:
+        rec = F.adts.get(DIFF) or {}
+        for v in rec.get("variants", []):
+            _VF[v.get("name")] = {f.get("name") for f in v.get("fields", [])}
+    return _VF.get(var, set())
